@@ -68,4 +68,107 @@ theorem idivmod_translated (a b q r : Int) (ha : 0 ≤ a) (hb : 0 < b) :
   have : ¬ a % b < 0 := by have := Int.emod_nonneg a (by omega : b ≠ 0); omega
   simp [this]
 
+-- ---- whole straight-line bodies as compositions of the translated functions --------------------------------------------
+-- Each `…T` below is the body of the C++ function written with the *generated* gmp++ definitions (Generated/IntegerOps.lean,
+-- regenerated from /repo); the theorem next to it says the hand model computes the same pair.  A change of the gmp++ layer
+-- changes the generated definitions (and their `_exact` theorems, used here), a change of the model changes the other side:
+-- either way these equalities are re-checked.
+
+theorem gcdT (a b : Int) : (Gen.gcd_Zc_Zc a b).ret = igcd a b := (igcd_translated a b).symm
+theorem mulT (a b : Int) : (Gen.Integer_op_mul_Zc_const a b).ret = a * b := (ring_ops_translated a b).2.2.1.symm
+theorem addT (a b : Int) : (Gen.Integer_op_add_Zc_const a b).ret = a + b := (ring_ops_translated a b).1.symm
+theorem subT (a b : Int) : (Gen.Integer_op_sub_Zc_const a b).ret = a - b := (ring_ops_translated a b).2.1.symm
+theorem divT (a b : Int) (hb : b ≠ 0) : (Gen.Integer_op_div_Zc_const a b).ret = idiv a b := (idiv_translated a b hb).1.symm
+theorem divinT (a b : Int) (hb : b ≠ 0) : (Gen.Integer_op_divin_Zc a b).ret = idiv a b := (idiv_translated a b hb).2.symm
+theorem mulinT (a b : Int) : (Gen.Integer_op_mulin_Zc a b).ret = a * b := (ring_ops_translated a b).2.2.2.2.2.symm
+
+theorem isOneT (t : Int) : (Gen.isOne_Zc t).ret ≠ 0 ↔ t = 1 := by
+  have h := Gen.isOne_Zc_exact t
+  unfold Gen.isOne_Zc_chk Spec.b2i at h
+  simp only [decide_eq_true_eq] at h
+  obtain ⟨_, h2, _⟩ := h
+  by_cases h1 : t = 1 <;> by_cases h3 : (Gen.isOne_Zc t).ret = 0 <;> simp_all
+
+theorem igcd_ne_zero_left {a b : Int} (h : a ≠ 0) : igcd a b ≠ 0 := by
+  unfold igcd; intro h0
+  have : Int.gcd a b = 0 := by exact_mod_cast h0
+  rw [Int.gcd_eq_zero_iff] at this; exact h this.1
+theorem igcd_ne_zero_right {a b : Int} (h : b ≠ 0) : igcd a b ≠ 0 := by
+  unfold igcd; intro h0
+  have : Int.gcd a b = 0 := by exact_mod_cast h0
+  rw [Int.gcd_eq_zero_iff] at this; exact h this.2
+
+/-- `Rational::reduce()`: `t = gcd(num, den); if (!isOne(t)) { num /= t; den /= t; }` -/
+def reduceT (r : QRep) : QRep :=
+  let t := (Gen.gcd_Zc_Zc r.num r.den).ret
+  if (Gen.isOne_Zc t).ret = 0 then ⟨(Gen.Integer_op_divin_Zc r.num t).ret, (Gen.Integer_op_divin_Zc r.den t).ret⟩ else r
+
+theorem reduce_body_translated (r : QRep) (h : r.den ≠ 0) : reduce r = reduceT r := by
+  unfold reduce reduceT
+  simp only [gcdT]
+  have hg := igcd_ne_zero_right (a := r.num) h
+  by_cases h1 : igcd r.num r.den = 1
+  · have : ¬ (Gen.isOne_Zc (igcd r.num r.den)).ret = 0 := (isOneT _).mpr h1
+    rw [if_neg this, if_neg (by simpa using h1)]
+  · have : (Gen.isOne_Zc (igcd r.num r.den)).ret = 0 := by
+      by_contra hh; exact h1 ((isOneT _).mp hh)
+    rw [if_pos this, if_pos h1, divinT _ _ hg, divinT _ _ hg]
+
+/-- the general branch of `operator+`: `d1 = gcd(den, r.den); t = num*(r.den/d1) + r.num*(den/d1); d2 = gcd(t, d1);
+    Rational(t/d2, (den/d1)*(r.den/d2), 0)` -/
+def addGeneralT (a r : QRep) : QRep :=
+  let d1 := (Gen.gcd_Zc_Zc a.den r.den).ret
+  let t := (Gen.Integer_op_add_Zc_const
+              (Gen.Integer_op_mul_Zc_const a.num (Gen.Integer_op_div_Zc_const r.den d1).ret).ret
+              (Gen.Integer_op_mul_Zc_const r.num (Gen.Integer_op_div_Zc_const a.den d1).ret).ret).ret
+  let d2 := (Gen.gcd_Zc_Zc t d1).ret
+  ⟨(Gen.Integer_op_div_Zc_const t d2).ret,
+   (Gen.Integer_op_mul_Zc_const (Gen.Integer_op_div_Zc_const a.den d1).ret (Gen.Integer_op_div_Zc_const r.den d2).ret).ret⟩
+
+theorem add_general_translated (a r : QRep) (ha : a.den ≠ 0)
+    (h1 : r.num ≠ 0) (h2 : a.num ≠ 0) (h3 : ¬ (a.den = 1 ∧ r.den = 1)) (h4 : igcd a.den r.den ≠ 1) :
+    add true a r = mk3 (addGeneralT a r).num (addGeneralT a r).den 0 := by
+  have hd1 := igcd_ne_zero_left (b := r.den) ha
+  unfold add addGeneralT
+  simp only [isZero, isInteger, beq_iff_eq, Bool.and_eq_true, h1, h2, h3, h4, ↓reduceIte, Bool.not_true, Bool.false_eq_true,
+    gcdT, mulT, addT, divT _ _ hd1]
+  have hd2 := igcd_ne_zero_right (a := a.num * idiv r.den (igcd a.den r.den) + r.num * idiv a.den (igcd a.den r.den)) hd1
+  rw [divT _ _ hd2, divT _ _ hd2]
+
+/-- the general branch of `operator*`: `d1 = gcd(num, r.den); d2 = gcd(den, r.num);
+    Rational((num/d1)*(r.num/d2), (den/d2)*(r.den/d1), 0)` -/
+def mulGeneralT (a r : QRep) : QRep :=
+  let d1 := (Gen.gcd_Zc_Zc a.num r.den).ret
+  let d2 := (Gen.gcd_Zc_Zc a.den r.num).ret
+  ⟨(Gen.Integer_op_mul_Zc_const (Gen.Integer_op_div_Zc_const a.num d1).ret (Gen.Integer_op_div_Zc_const r.num d2).ret).ret,
+   (Gen.Integer_op_mul_Zc_const (Gen.Integer_op_div_Zc_const a.den d2).ret (Gen.Integer_op_div_Zc_const r.den d1).ret).ret⟩
+
+theorem mul_general_translated (a r : QRep) (ha : a.den ≠ 0) (hr : r.den ≠ 0) :
+    mulGeneralT a r = ⟨idiv a.num (igcd a.num r.den) * idiv r.num (igcd a.den r.num),
+                       idiv a.den (igcd a.den r.num) * idiv r.den (igcd a.num r.den)⟩ := by
+  unfold mulGeneralT
+  simp only [gcdT, mulT, divT _ _ (igcd_ne_zero_right (a := a.num) hr), divT _ _ (igcd_ne_zero_left (b := r.num) ha)]
+
+/-- the in-place general branch of `operator*=`: `num /= d1; num *= (r.num/d2); den /= d2; den *= (r.den/d1)` -/
+def mulinGeneralT (a r : QRep) : QRep :=
+  let d1 := (Gen.gcd_Zc_Zc a.num r.den).ret
+  let d2 := (Gen.gcd_Zc_Zc a.den r.num).ret
+  ⟨(Gen.Integer_op_mulin_Zc (Gen.Integer_op_divin_Zc a.num d1).ret (Gen.Integer_op_div_Zc_const r.num d2).ret).ret,
+   (Gen.Integer_op_mulin_Zc (Gen.Integer_op_divin_Zc a.den d2).ret (Gen.Integer_op_div_Zc_const r.den d1).ret).ret⟩
+
+theorem mulin_general_translated (a r : QRep) (ha : a.den ≠ 0) (hr : r.den ≠ 0) : mulinGeneralT a r = mulGeneralT a r := by
+  unfold mulinGeneralT mulGeneralT
+  simp only [gcdT, mulT, mulinT, divT _ _ (igcd_ne_zero_right (a := a.num) hr), divT _ _ (igcd_ne_zero_left (b := r.num) ha),
+    divinT _ _ (igcd_ne_zero_right (a := a.num) hr), divinT _ _ (igcd_ne_zero_left (b := r.num) ha)]
+
+/-- the cross-multiplication at the end of `absCompare(Rational, Rational)`: `absCompare(a.num*b.den, a.den*b.num)` -/
+theorem abscompare_cross_translated (a b : QRep) :
+    (Gen.absCompare_Zc_Zc (Gen.Integer_op_mul_Zc_const a.num b.den).ret (Gen.Integer_op_mul_Zc_const a.den b.num).ret).ret
+      = mpz_cmpabs (a.num * b.den) (a.den * b.num) := by
+  simp only [mulT]; rfl
+
+/-- `trunc`, and `round`'s `divmod(q, r, abs(num), den)` with `r << 1` compared to `den` -/
+theorem trunc_body_translated (a : QRep) (h : a.den ≠ 0) : trunc a = (Gen.Integer_op_div_Zc_const a.num a.den).ret := by
+  unfold trunc; rw [divT _ _ h]
+
 end Givaro.Lemmas.Rational
